@@ -22,6 +22,8 @@ def scenarios(tier):
     seed = int(os.environ.get("VERIF_SEED", "0")) + 71
     type_sets = [("SNV", "SNV", "SNV", "SNV"), ("SNV", "INS", "SNV", "DEL"), ("DEL", "SNV", "INS", "SNV")]
     type_sets += [("INS", "INS", "SNV", "SNV"), ("SNV", "DEL", "DEL", "SNV"), ("MNP", "SNV", "INS", "SNV")]
+    # a record with two ALT alleles (genotype 1/2): `phase` leaves it alone, the harness phases it in the original VCF
+    type_sets += [("SNV", "MULTI", "SNV", "SNV"), ("MULTI", "SNV", "DEL", "MULTI")]
     if T:
         type_sets += [("DEL", "INS", "MNP", "SNV"), ("SNV", "SNV", "DEL", "INS"), ("INS", "SNV", "SNV", "MNP")]
     for k in (2, 3, 4):
@@ -43,13 +45,17 @@ def build_world(sc):
     k = len(sc["types"])
     vs = []
     for i, t in enumerate(sc["types"]):
-        vs.append({"pos": 60 + 45 * i, "kind": t, "len": 2 if t in ("INS", "DEL", "MNP") else 1})
-    world = {"seed": sc["seed"], "chroms": [{"name": "chrA", "length": 60 + 45 * k + 70, "variants": vs}], "samples": ["S1"], "haps": {"S1": {"chrA": [[a, 1 - a] for a in sc["hp"]]}}, "reads": []}
+        if t == "MULTI":
+            vs.append({"pos": 60 + 45 * i, "kind": "SNV", "len": 1, "multi": True})
+        else:
+            vs.append({"pos": 60 + 45 * i, "kind": t, "len": 2 if t in ("INS", "DEL", "MNP") else 1})
+    haps = [([1 + a, 2 - a] if t == "MULTI" else [a, 1 - a]) for a, t in zip(sc["hp"], sc["types"])]
+    world = {"seed": sc["seed"], "chroms": [{"name": "chrA", "length": 60 + 45 * k + 70, "variants": vs}], "samples": ["S1"], "haps": {"S1": {"chrA": haps}}, "reads": []}
     chroms = ["chrA"]
     if sc["cover"] == "chromosome-untagged":
         # a second chromosome that is phased by `phase` but has no alignment at all in the tagged BAM
         world["chroms"].append({"name": "chrB", "length": 60 + 45 * k + 70, "variants": [dict(v) for v in vs]})
-        world["haps"]["S1"]["chrB"] = [[a, 1 - a] for a in sc["hp"]]
+        world["haps"]["S1"]["chrB"] = [list(h) for h in haps]
         chroms.append("chrB")
     # reads: per block, reads covering the whole block on both haplotypes (never two blocks)
     for c in chroms:
@@ -163,6 +169,35 @@ def judge(sc):
     if err:
         return [V("error", f"phase failed: {err}", ["phase"])], 1, 1, False
     text0 = open(os.path.join(d, "phased.vcf")).read()
+    if "MULTI" in sc["types"]:
+        # phase the two-ALT records by hand, consistently with the block they belong to (orientation read off a
+        # phased neighbour of the same block), as another phaser would have done
+        lines = text0.splitlines()
+        body = [i for i, l in enumerate(lines) if l and not l.startswith("#")]
+        per_chrom = {}
+        for i in body:
+            per_chrom.setdefault(lines[i].split("\t")[0], []).append(i)
+        for cname, idxs in per_chrom.items():
+            truth = world["haps"]["S1"][cname]
+            for vi, li in enumerate(idxs):
+                if sc["types"][vi] != "MULTI":
+                    continue
+                mates = [vj for vj in range(k) if vj != vi and sc["blocks"][vj] == sc["blocks"][vi] and "|" in lines[idxs[vj]].split("\t")[9]]
+                if not mates:
+                    continue
+                tj = lines[idxs[mates[0]]].split("\t")
+                dj = dict(zip(tj[8].split(":"), tj[9].split(":")))
+                first = int(dj["GT"].split("|")[0])
+                same = first == truth[mates[0]][0]
+                a0, a1 = truth[vi] if same else truth[vi][::-1]
+                t = lines[li].split("\t")
+                t[8] = "GT:PS"
+                t[9] = f"{a0}|{a1}:{dj['PS']}"
+                lines[li] = "\t".join(t)
+        text0 = "\n".join(lines) + "\n"
+        with open(os.path.join(d, "phased.vcf"), "w") as f:
+            f.write(text0)
+        parsed0 = synth.parse_vcf(os.path.join(d, "phased.vcf"))
     orig = {}
     for ri, rec in enumerate(parsed0["records"]):
         orig[ri] = (rec["calls"][0].get("GT"), rec["calls"][0].get("PS"))
